@@ -299,3 +299,10 @@ Proof. exact w_fresh_ok. Qed.
 (** The hypotheses are satisfiable: the 9-state witness chain is a well-formed chain. *)
 Example C14_hypotheses_satisfiable : genesis_ok w_g2 w_gb /\ chain_wf w_g2 w_chain.
 Proof. exact (conj w_genesis2_ok w_chain_wf). Qed.
+
+(** The decision-critical functions of the anchored code have exactly the decisions the source tie knows about
+    (go2coq manifests, regenerated from /repo on every check; statement in SourceManifest.v). *)
+From Kardia Require Import C14.SourceManifest.
+Theorem C14_source_manifest : C14_source_manifest_statement.
+Proof. exact C14_source_manifest_proof. Qed.
+Print Assumptions C14_source_manifest.
